@@ -53,7 +53,9 @@ type GitCommit struct {
 
 type Case struct {
 	Case    string         `json:"case"`
-	Kind    string         `json:"kind"` // java | git
+	Kind    string         `json:"kind"` // java | git | model
+	Model   []MClass       `json:"model"`
+	Roots   []string       `json:"roots"`
 	Files   []javagen.File `json:"files"`
 	Layout  int            `json:"layout"`
 	History []GitCommit    `json:"history"`
@@ -381,6 +383,9 @@ func one(raw json.RawMessage) interface{} {
 		sub := cs
 		sub.N = 1
 		sub.Root = root
+		if cs.Kind == "model" {
+			os.Setenv("GOMAXPROCS", "4")
+		}
 		for i := 0; i < cs.N; i++ {
 			raw, err := lib.Fresh(sub)
 			var sr Record
@@ -406,8 +411,12 @@ func one(raw json.RawMessage) interface{} {
 				}
 			}
 		}
-		// the same API calls repeated three times inside ONE process
+		// the same API calls repeated three times inside ONE process (model cases are cheap: forty times, and with four
+		// threads, because a report assembled by goroutines only varies when they really run in parallel)
 		sub.N = -3
+		if cs.Kind == "model" {
+			sub.N = -40
+		}
 		if raw, err := lib.Fresh(sub); err == nil {
 			var sr Record
 			if json.Unmarshal(raw, &sr) == nil && !sr.Panic {
@@ -438,9 +447,12 @@ func one(raw json.RawMessage) interface{} {
 	}
 	p, msg := lib.Guard(func() {
 		for i := 0; i < reps; i++ {
-			if cs.Kind == "java" {
+			switch cs.Kind {
+			case "java":
 				javaReports(col, root, roots)
-			} else {
+			case "model":
+				modelReports(col, cs.Model, cs.Roots)
+			default:
 				gitReports(col, cs.History)
 			}
 		}
@@ -595,6 +607,18 @@ func gen(seed int64, n int, tier string) []interface{} {
 	for k := 0; k < n; k++ {
 		if k%3 == 2 {
 			out = append(out, genGit(r, fmt.Sprintf("git-%d-%d", seed, k), runs))
+			continue
+		}
+		if k%6 == 1 {
+			id := fmt.Sprintf("model-%d-%d", seed, k)
+			switch (k / 6) % 3 {
+			case 0:
+				out = append(out, genDeepFan(r, id, runs))
+			case 1:
+				out = append(out, genServices(r, id, runs))
+			default:
+				out = append(out, genGraph(r, id, runs))
+			}
 			continue
 		}
 		p := javaproj.Gen(r, true)
